@@ -42,6 +42,20 @@ def run(tier="quick", only_key=None):
                 phase = alg.exp(sum((alg.I * (2 * alg.PI / L) * k * S(f"x{j}") for j, k in enumerate(C.kvec(D))), Poly()))
                 ref = Tens((Cn,), [alg.real(SO.sym_sum(C.fft(u.data[c], D) / S_rec * phase, fshape)) for c in range(Cn)])
                 ck.compare("interpolant", key, loc(FI.find("__call__")), res, ref)
+                # indexing="xy": query coordinate j pairs with the wavenumbers of the array axis along which make_grid(xy)
+                # lays out coordinate j
+                if D > 1 and Cn == 1:
+                    mg = it.module("exponax._utils").env.get("make_grid")
+                    g = it.call(mg, [D, L, N], {"indexing": "xy"})
+                    gax = [sorted({a[1][1] for a in e.all_atoms() if a[0] == "idx"}) for e in g.data]
+                    if not all(len(a) == 1 for a in gax):
+                        raise AnalysisBroken(f"make_grid(indexing='xy') components are not single-axis: {gax}")
+                    kv = C.kvec(D)
+                    o2 = it.call(FI, [u], {"domain_extent": L, "indexing": "xy"})
+                    res2 = it.call(o2, [x])
+                    phase2 = alg.exp(sum((alg.I * (2 * alg.PI / L) * kv[gax[j][0]] * S(f"x{j}") for j in range(D)), Poly()))
+                    ref2 = Tens((Cn,), [alg.real(SO.sym_sum(C.fft(u.data[c], D) / S_rec * phase2, fshape)) for c in range(Cn)])
+                    ck.compare("interpolant", key + ",indexing=xy", loc(FI.find("__init__")), res2, ref2)
     # ---- (b)-(d) resolution change
     rows = 0
     for po, pn, up, odd0 in itertools.product((0, 1), (0, 1), (True, False), (True, False)):
